@@ -59,6 +59,38 @@ Proof. unfold meq, mdet; intros (A & B & C & D & E & F). rewrite A, B, D, E. ref
 Lemma mdet_mmul m q : mdet (mmul m q) == mdet m * mdet q.
 Proof. unfold mdet, mmul; cbn [ma mb mc md me mf]. ring. Qed.
 
+(** the elementary post-multiplications, as point maps (one level of [mmul] each, so nothing blows up) *)
+Lemma mdot_mtranslate m x y p : pteq (mdot (mtranslate m x y) p) (mdot m (fst p + x, snd p + y)).
+Proof. unfold pteq, mdot, mtranslate, mmul; cbn [ma mb mc md me mf fst snd]. split; ring. Qed.
+Lemma mdot_mscale m sx sy p : pteq (mdot (mscale m sx sy) p) (mdot m (sx * fst p, sy * snd p)).
+Proof. unfold pteq, mdot, mscale, mmul; cbn [ma mb mc md me mf fst snd]. split; ring. Qed.
+Lemma mdot_pt m p p' : pteq p p' -> pteq (mdot m p) (mdot m p').
+Proof. intro E. apply mdot_meq; [apply meq_refl|exact E]. Qed.
+
+Lemma mdot_mreflectx_about m x p : pteq (mdot (mreflectx_about m x) p) (mdot m (2 * x - fst p, snd p)).
+Proof.
+  unfold mreflectx_about. eapply pteq_trans; [apply mdot_mtranslate|]. eapply pteq_trans; [apply mdot_mscale|].
+  eapply pteq_trans; [apply mdot_mtranslate|]. apply mdot_pt. unfold pteq; cbn [fst snd]. split; ring.
+Qed.
+Lemma mdot_mreflecty_about m y p : pteq (mdot (mreflecty_about m y) p) (mdot m (fst p, 2 * y - snd p)).
+Proof.
+  unfold mreflecty_about. eapply pteq_trans; [apply mdot_mtranslate|]. eapply pteq_trans; [apply mdot_mscale|].
+  eapply pteq_trans; [apply mdot_mtranslate|]. apply mdot_pt. unfold pteq; cbn [fst snd]. split; ring.
+Qed.
+Lemma mdot_mid p : pteq (mdot mid p) p.
+Proof. unfold pteq, mdot, mid; cbn [ma mb mc md me mf fst snd]. split; ring. Qed.
+
+Lemma mdet_mtranslate m x y : mdet (mtranslate m x y) == mdet m.
+Proof. unfold mtranslate. rewrite mdet_mmul. unfold mdet at 2; cbn [ma mb mc md me mf]. ring. Qed.
+Lemma mdet_mscale m sx sy : mdet (mscale m sx sy) == mdet m * (sx * sy).
+Proof. unfold mscale. rewrite mdet_mmul. unfold mdet at 2; cbn [ma mb mc md me mf]. ring. Qed.
+Lemma mdet_mreflectx_about m x : mdet (mreflectx_about m x) == - mdet m.
+Proof. unfold mreflectx_about. rewrite mdet_mtranslate, mdet_mscale, mdet_mtranslate. ring. Qed.
+Lemma mdet_mreflecty_about m y : mdet (mreflecty_about m y) == - mdet m.
+Proof. unfold mreflecty_about. rewrite mdet_mtranslate, mdet_mscale, mdet_mtranslate. ring. Qed.
+Lemma mdet_mid : mdet mid == 1.
+Proof. reflexivity. Qed.
+
 (** * Push / Pop *)
 
 (** histories in which every Pop is matched by an earlier Push and vice versa, nested arbitrarily *)
@@ -180,8 +212,14 @@ Proof. intro E. cbn zeta. rewrite (view_ops_postmultiply W H c o q E). cbn. repe
 
 Theorem csv_meaning W H s p : pteq (mdot (csv W H s) p) (spec_csv W H s p).
 Proof.
-  destruct s; unfold pteq, mdot, csv, spec_csv, mreflectx_about, mreflecty_about, mtranslate, mscale, mmul, mid;
-    cbn [ma mb mc md me mf fst snd]; split; field.
+  destruct s; unfold csv, spec_csv.
+  - apply mdot_mid.
+  - eapply pteq_trans; [apply mdot_mreflectx_about|]. eapply pteq_trans; [apply mdot_mid|].
+    unfold pteq; cbn [fst snd]. split; [field|reflexivity].
+  - eapply pteq_trans; [apply mdot_mreflecty_about|]. eapply pteq_trans; [apply mdot_mreflectx_about|].
+    eapply pteq_trans; [apply mdot_mid|]. unfold pteq; cbn [fst snd]. split; field.
+  - eapply pteq_trans; [apply mdot_mreflecty_about|]. eapply pteq_trans; [apply mdot_mid|].
+    unfold pteq; cbn [fst snd]. split; [reflexivity|field].
 Qed.
 
 (** the origin lies in the bottom-left, bottom-right, top-right, top-left corner of the W x H canvas *)
@@ -189,8 +227,7 @@ Theorem origin_corner W H :
   pteq (mdot (csv W H CartI) (0, 0)) (0, 0) /\ pteq (mdot (csv W H CartII) (0, 0)) (W, 0) /\
   pteq (mdot (csv W H CartIII) (0, 0)) (W, H) /\ pteq (mdot (csv W H CartIV) (0, 0)) (0, H).
 Proof.
-  repeat split; unfold mdot, csv, mreflectx_about, mreflecty_about, mtranslate, mscale, mmul, mid;
-    cbn [ma mb mc md me mf fst snd]; field.
+  repeat split; (eapply pteq_trans; [apply csv_meaning|]); unfold pteq, spec_csv; cbn [fst snd]; split; ring.
 Qed.
 
 (** SetCoordRect maps (0,0)--(w,h) onto the rectangle *)
@@ -201,7 +238,7 @@ Theorem coord_rect_corners W H c r w h :
 Proof.
   intros Hw Hh. cbn zeta. cbn [ctx_step fst with_coord ccur ccoord].
   split; (eapply pteq_trans; [apply mdot_mnorm|]);
-    unfold pteq, mdot, mscale, mtranslate, mmul, mid, rW, rH; cbn [ma mb mc md me mf fst snd]; split; field; assumption.
+    unfold pteq, mdot, mscale, mtranslate, mmul, mid, rW, rH; cbn [ma mb mc md me mf fst snd]; split; field; repeat split; assumption.
 Qed.
 
 (** * Draw matrices *)
@@ -272,8 +309,7 @@ Definition csys_sign (s : csys) : Q := match s with CartI | CartIII => 1 | _ => 
 
 Lemma csv_det W H s : mdet (csv W H s) == csys_sign s.
 Proof.
-  destruct s; unfold mdet, csv, csys_sign, mreflectx_about, mreflecty_about, mtranslate, mscale, mmul, mid;
-    cbn [ma mb mc md me mf]; ring.
+  destruct s; unfold csv, csys_sign; rewrite ?mdet_mreflecty_about, ?mdet_mreflectx_about, mdet_mid; ring.
 Qed.
 
 Theorem path_orientation W H s x y :
@@ -292,22 +328,18 @@ Proof.
     unfold mreflectx, mreflecty, mscale; rewrite ?mdet_mmul, B; unfold mdet, mid; cbn [ma mb mc md me mf]; ring.
 Qed.
 
-(** with the identity view the linear part of a text's matrix is the identity in every coordinate system *)
-Theorem text_upright_identity_view W H s x y :
+(** with the identity view a text is only translated, in every coordinate system: the point p of the text appears
+    at p + CoordSystemView(coordView(x,y)) *)
+Theorem text_upright_identity_view W H s x y p :
   meq (cview s) mid ->
-  let m := text_matrix W H s x y in ma m == 1 /\ mb m == 0 /\ md m == 0 /\ me m == 1.
+  pteq (mdot (text_matrix W H s x y) p) (padd p (spec_csv W H (csysm s) (mdot (ccoord s) (x, y)))).
 Proof.
-  intros (A & B & C & D & E & F). cbn zeta. unfold text_matrix.
-  destruct (mnorm_meq (if flipsX (csysm s) then mreflectx (if flipsY (csysm s) then mreflecty (base_matrix W H s x y) else base_matrix W H s x y)
-                       else (if flipsY (csysm s) then mreflecty (base_matrix W H s x y) else base_matrix W H s x y)))
-    as (N1 & N2 & _ & N4 & N5 & _).
-  rewrite N1, N2, N4, N5. clear N1 N2 N4 N5.
-  destruct (base_matrix_formula W H s x y) as (F1 & F2 & _ & F4 & F5 & _).
-  unfold mid in A, B, C, D, E, F; cbn [ma mb mc md me mf] in A, B, C, D, E, F.
-  destruct (csysm s); cbn [flipsX flipsY];
-    unfold mreflectx, mreflecty, mscale, mmul; cbn [ma mb mc md me mf]; rewrite F1, F2, F4, F5;
-    unfold csv, mreflectx_about, mreflecty_about, mtranslate, mscale, mmul, mid; cbn [ma mb mc md me mf];
-    rewrite A, B, D, E; repeat split; ring.
+  intro V. eapply pteq_trans; [apply text_matrix_point|]. eapply pteq_trans; [apply base_matrix_point|].
+  set (q := mdot (ccoord s) (x, y)).
+  assert (E : pteq (mdot (cview s) (padd (text_flip (csysm s) p) q)) (padd (text_flip (csysm s) p) q)).
+  { eapply pteq_trans; [apply mdot_meq; [exact V|apply pteq_refl]|apply mdot_mid]. }
+  destruct E as [E1 E2]. unfold text_flip, padd in *; cbn [fst snd] in *.
+  destruct (csysm s); cbn [flipsX flipsY spec_csv fst snd] in *; unfold pteq; cbn [fst snd]; rewrite ?E1, ?E2; split; ring.
 Qed.
 
 (** images: pixel (px,py) is placed at (px,py)/res, mirrored within the image's own box in the flipped systems *)
@@ -320,9 +352,14 @@ Theorem image_matrix_point W H s x y wpx hpx res p :
   pteq (mdot (image_matrix W H s x y wpx hpx res) p) (mdot (base_matrix W H s x y) (fst q / res, snd q / res)).
 Proof.
   intro R. cbn zeta. unfold image_matrix, image_flip. eapply pteq_trans; [apply mdot_mnorm|].
-  destruct (csysm s); cbn [flipsX flipsY];
-    unfold pteq, mdot, mreflectx_about, mreflecty_about, mtranslate, mscale, mmul; cbn [ma mb mc md me mf fst snd];
-    split; field; assumption.
+  destruct (csysm s); cbn [flipsX flipsY fst snd].
+  - eapply pteq_trans; [apply mdot_mscale|]. apply mdot_pt. unfold pteq; cbn [fst snd]. split; field; assumption.
+  - eapply pteq_trans; [apply mdot_mreflectx_about|]. eapply pteq_trans; [apply mdot_mscale|].
+    apply mdot_pt. unfold pteq; cbn [fst snd]. split; field; assumption.
+  - eapply pteq_trans; [apply mdot_mreflectx_about|]. eapply pteq_trans; [apply mdot_mreflecty_about|].
+    eapply pteq_trans; [apply mdot_mscale|]. apply mdot_pt. unfold pteq; cbn [fst snd]. split; field; assumption.
+  - eapply pteq_trans; [apply mdot_mreflecty_about|]. eapply pteq_trans; [apply mdot_mscale|].
+    apply mdot_pt. unfold pteq; cbn [fst snd]. split; field; assumption.
 Qed.
 
 Theorem image_upright W H s x y wpx hpx res :
@@ -331,8 +368,7 @@ Proof.
   intro R. unfold image_matrix. rewrite (mdet_meq _ _ (mnorm_meq _)).
   assert (B := path_orientation W H s x y). revert B.
   destruct (csysm s); cbn [flipsX flipsY csys_sign]; intro B;
-    unfold mreflectx_about, mreflecty_about, mtranslate, mscale; rewrite ?mdet_mmul, B;
-    unfold mdet, mid; cbn [ma mb mc md me mf]; field; assumption.
+    rewrite ?mdet_mreflectx_about, ?mdet_mreflecty_about, mdet_mscale, B; field; assumption.
 Qed.
 
 Theorem draw_image_matrix W H c x y id wpx hpx res r :
